@@ -126,6 +126,18 @@ Definition sc_restart_in_commit_wait_after_valset_change : list event :=
       EvFinResp 3 0 [9] 15 [2];
       EvStop; EvStart; EvRERespVRV (svw 4 1 [] [] [9] 15)].
 
+(** a header whose NEXT validator set has the right keys and other powers (set 15 + 16 in the harness: equal key hash,
+    different power hash) next to the genuine header: only the genuine one may be offered to the consensus strategy, at
+    the initial height and one height later (where the expected next set is the one the first finalization returned) *)
+Definition sc_header_with_altered_next_powers : list event :=
+  enter0 ++
+  [EvView (sv 1 0 2 (svs 0 0 [] []) [mkPh [8] genesis_ash 15 31 [108] false; sph 7]) None;
+   EvAnswer 0 [7];
+   EvView (sv 1 0 3 (svs 30 30 [([7], 30)] [([7], 30)]) [mkPh [8] genesis_ash 15 31 [108] false; sph 7]) None;
+   EvFinResp 1 0 [7] 15 [2]; EvTimer;
+   EvRERespVRV (svw 2 1 [] [] [7] 15);
+   EvView (svw 2 2 [] [mkPh [9] [2] 15 31 [109] false; mkPh [6] [2] 31 15 [106] false; mkPh [5] [2] 15 15 [105] false] [7] 15) None].
+
 Definition scenarios : list (list event) :=
   [sc_nil_prevote_restart_block; sc_block_prevote_restart_nil; sc_block_prevote_restart_other;
    sc_nil_precommit_restart_block; sc_block_precommit_restart_nil; sc_proposal_restart_other_proposal;
@@ -133,7 +145,7 @@ Definition scenarios : list (list event) :=
    sc_prevote_delay_elapses; sc_precommit_delay_then_commit; sc_stale_round_nil_quorum; sc_future_round_view;
    sc_stale_step_after_committed_header; sc_commit_wait_other_header_first;
    sc_restart_after_valset_change; sc_restart_in_commit_wait_later_round;
-   sc_restart_in_commit_wait_after_valset_change].
+   sc_restart_in_commit_wait_after_valset_change; sc_header_with_altered_next_powers].
 
 Definition scenario_report : list (list (list N * (list (list N) * list (list N)))) :=
   map (fun es => combine (map enc_event es) (map project (run_events (sm0 true) es))) scenarios.
